@@ -10,9 +10,12 @@ import (
 func distByName(t *tree.Tree) map[string]float64 {
 	res := map[string]float64{}
 	for _, tip := range t.Tips() {
+		if tip.Name() == "" {
+			continue // a root with a single neighbour is not a tip
+		}
 		var rec func(cur, prev *tree.Node, acc float64)
 		rec = func(cur, prev *tree.Node, acc float64) {
-			if cur.Tip() && cur != tip {
+			if cur.Tip() && cur != tip && cur.Name() != "" {
 				res[tip.Name()+"|"+cur.Name()] = acc
 				return
 			}
@@ -64,26 +67,21 @@ func addComments(t *tree.Tree) {
 func c15start(n int) *tree.Tree {
 	s := genShape(n, false)
 	rooted := sxChoose("rooted", 2) == 1
-	if sxParam("singles", 0) == 1 {
+	for r := 0; r < sxParam("singles", 0); r++ {
 		es := s.edges()
-		// one or two single-child inner nodes
-		for r := 0; r < 2; r++ {
-			ch := sxChoose(fmt.Sprintf("single%d", r), len(es)+1)
-			if ch < len(es) {
-				u, v := es[ch][0], es[ch][1]
-				if !s.adjacent(u, v) {
-					continue
-				}
-				m := s.addNode(-1)
-				s.replaceNeighbor(u, v, m)
-				s.replaceNeighbor(v, u, m)
-				s.adj[m] = append(s.adj[m], u, v)
-			}
+		ch := sxChoose(fmt.Sprintf("single%d", r), len(es)+1)
+		if ch == len(es) {
+			break
 		}
+		u, v := es[ch][0], es[ch][1]
+		m := s.addNode(-1)
+		s.replaceNeighbor(u, v, m)
+		s.replaceNeighbor(v, u, m)
+		s.adj[m] = append(s.adj[m], u, v)
 	}
 	t := buildTree(s, rootShape(s, rooted))
 	if sxParam("lenmode", lenAll) == lenAll {
-		decorate(t, lenAll, supAny)
+		decorate(t, lenAll, sxParam("supmode", supNone))
 	} else {
 		decorate(t, lenNone, supNone)
 	}
@@ -99,6 +97,7 @@ func H_C15_graft() {
 	tp := tips[sxChoose("grafttip", len(tips))].Name()
 	g := c03otherTree(2 + sxChoose("graftsize", 2))
 	gd := distByName(g)
+	ng := len(g.Tips())
 	before := distByName(t)
 	sxReach("ready")
 	err := t.GraftTreeOnTip(tp, g)
@@ -118,7 +117,7 @@ func H_C15_graft() {
 		a, ok := after[k]
 		sxAssert(ok && a == d, "path lengths inside the grafted tree unchanged")
 	}
-	sxAssert(len(t.Tips()) == n-1+len(g.Tips()), "exactly the requested tips added")
+	sxAssert(len(t.Tips()) == n-1+ng, "exactly the requested tips added")
 	sxReach("checked")
 }
 
@@ -209,7 +208,7 @@ func H_C15_subtree() {
 	sxReach("ready")
 	sub := t.SubTree(nd)
 	sxAssert(wellFormed(sub) == "", "subtree well-formed")
-	sxAssert(tipSet(sub) == want, "subtree has exactly the tips below the node")
+	sxAssert(maskBelow(sub.Root(), nil, nil) == want, "subtree has exactly the tips below the node")
 	after := distByName(sub)
 	for k, d := range after {
 		b, ok := before[k]
@@ -233,10 +232,17 @@ func parentOf(t *tree.Tree, nd *tree.Node) *tree.Node {
 // twin edits: anything that writes into a tree
 const c15nedits = c03nops + 4
 
+// default structural edits applied to a twin: Reroot, UnRoot, RemoveTips,
+// CollapseLowSupport, Resolve, RemoveSingleNodes, NNI, Rename, Clear*
+const c15defaultMask = 1<<0 | 1<<4 | 1<<5 | 1<<7 | 1<<9 | 1<<15 | 1<<16 | 1<<17 | 1<<20
+
 func c15edit(t *tree.Tree, n int) {
 	op := sxChoose("twinedit", c15nedits)
 	switch {
 	case op < c03nops:
+		if sxParam("editmask", c15defaultMask)&(1<<uint(op)) == 0 {
+			sxAssume(false)
+		}
 		c03apply(t, n, op, 9)
 	case op == c03nops:
 		for _, nd := range t.Nodes() {
